@@ -58,6 +58,40 @@ type c34World struct {
 	counter    uint32
 	// observations made by the stubs
 	wrongPkh bool
+	// fault plan: the n-th chain query (counted over both chains) fails,
+	// once (transient) or from then on (outage); -1 = healthy chains
+	faultAt     int
+	faultSticky bool
+	queries     int
+	faulted     string
+}
+
+var errC34Fault = fmt.Errorf("c34: injected chain fault (request timed out)")
+
+// query counts one chain query and says whether it is to fail.
+func (w *c34World) query(name string) error {
+	n := w.queries
+	w.queries++
+	if w.faultAt >= 0 && (n == w.faultAt || (w.faultSticky && n > w.faultAt)) {
+		if w.faulted == "" {
+			w.faulted = name
+		}
+		return errC34Fault
+	}
+	return nil
+}
+
+// c34ArmFault: after a healthy run that made n chain queries, draw which of
+// them fails when the same flow is run again (transient or persistent).
+func c34ArmFault(t *rapid.T, w *c34World) bool {
+	n := w.queries
+	if n == 0 || !rapid.Bool().Draw(t, "rerunWithChainFault") {
+		return false
+	}
+	w.queries, w.faulted = 0, ""
+	w.faultAt = rapid.IntRange(0, n-1).Draw(t, "faultAtQuery")
+	w.faultSticky = rapid.Bool().Draw(t, "faultPersists")
+	return true
 }
 
 func (o *c34OutInfo) isWallet() bool { return o.kind == c34WalletP2PKH || o.kind == c34WalletP2WPKH }
@@ -87,7 +121,7 @@ func c34MainUtxoHash(h bitcoin.Hash, index uint32, value int64) [32]byte {
 }
 
 func c34NewWorld(t *rapid.T) *c34World {
-	w := &c34World{byHash: map[bitcoin.Hash]*c34Tx{}, deposits: map[c34Op]bool{}, movedReqs: map[c34Op]bool{}}
+	w := &c34World{byHash: map[bitcoin.Hash]*c34Tx{}, deposits: map[c34Op]bool{}, movedReqs: map[c34Op]bool{}, faultAt: -1}
 	copy(w.pkh[:], rapid.SliceOfN(rapid.Byte(), 20, 20).Draw(t, "walletPkh"))
 	copy(w.other[:], rapid.SliceOfN(rapid.Byte(), 20, 20).Draw(t, "otherPkh"))
 	if w.other == w.pkh {
@@ -196,6 +230,9 @@ type c34Btc struct {
 }
 
 func (b *c34Btc) GetTransaction(h bitcoin.Hash) (*bitcoin.Transaction, error) {
+	if err := b.w.query("GetTransaction"); err != nil {
+		return nil, err
+	}
 	if tx, ok := b.w.byHash[h]; ok {
 		return tx.tx, nil
 	}
@@ -206,6 +243,9 @@ func (b *c34Btc) GetTransaction(h bitcoin.Hash) (*bitcoin.Transaction, error) {
 // order; like the Electrum implementation (P2PKH history + P2WPKH history,
 // stable-sorted by height) a transaction touching both scripts is listed twice.
 func (b *c34Btc) GetTxHashesForPublicKeyHash(pkh [20]byte) ([]bitcoin.Hash, error) {
+	if err := b.w.query("GetTxHashesForPublicKeyHash"); err != nil {
+		return nil, err
+	}
 	if pkh != b.w.pkh {
 		b.w.wrongPkh = true
 	}
@@ -246,10 +286,16 @@ func (b *c34Btc) utxos(pkh [20]byte, mempool bool) []*bitcoin.UnspentTransaction
 }
 
 func (b *c34Btc) GetUtxosForPublicKeyHash(pkh [20]byte) ([]*bitcoin.UnspentTransactionOutput, error) {
+	if err := b.w.query("GetUtxosForPublicKeyHash"); err != nil {
+		return nil, err
+	}
 	return b.utxos(pkh, false), nil
 }
 
 func (b *c34Btc) GetMempoolUtxosForPublicKeyHash(pkh [20]byte) ([]*bitcoin.UnspentTransactionOutput, error) {
+	if err := b.w.query("GetMempoolUtxosForPublicKeyHash"); err != nil {
+		return nil, err
+	}
 	return b.utxos(pkh, true), nil
 }
 
@@ -259,6 +305,9 @@ type c34Bridge struct {
 }
 
 func (b *c34Bridge) GetWallet(pkh [20]byte) (*WalletChainData, error) {
+	if err := b.w.query("GetWallet"); err != nil {
+		return nil, err
+	}
 	if pkh != b.w.pkh {
 		b.w.wrongPkh = true
 	}
@@ -270,6 +319,9 @@ func (b *c34Bridge) ComputeMainUtxoHash(u *bitcoin.UnspentTransactionOutput) [32
 }
 
 func (b *c34Bridge) GetDepositRequest(h bitcoin.Hash, index uint32) (*DepositChainRequest, bool, error) {
+	if err := b.w.query("GetDepositRequest"); err != nil {
+		return nil, false, err
+	}
 	if b.w.deposits[c34Op{h, index}] {
 		return &DepositChainRequest{Amount: 1}, true, nil
 	}
@@ -277,6 +329,9 @@ func (b *c34Bridge) GetDepositRequest(h bitcoin.Hash, index uint32) (*DepositCha
 }
 
 func (b *c34Bridge) GetMovedFundsSweepRequest(h bitcoin.Hash, index uint32) (*MovedFundsSweepRequest, bool, error) {
+	if err := b.w.query("GetMovedFundsSweepRequest"); err != nil {
+		return nil, false, err
+	}
 	if b.w.movedReqs[c34Op{h, index}] {
 		return &MovedFundsSweepRequest{WalletPublicKeyHash: b.w.pkh, Value: 1, State: MovedFundsStatePending}, true, nil
 	}
@@ -439,6 +494,29 @@ func TestVerif_C34_DetermineMainUtxo(t *testing.T) {
 					expect.tx.hash[:6], expect.idx, expect.tx.outs[expect.idx].value, w.render())
 			}
 		}
+		// the same lookup over chains on which one query fails: an error is
+		// fine, a wrong answer is not
+		faultLabel := "fault:none"
+		if c34ArmFault(t, w) {
+			got, err := DetermineWalletMainUtxo(w.pkh, &c34Bridge{w: w}, &c34Btc{w: w})
+			faultLabel = "fault:" + w.faulted
+			switch {
+			case err != nil:
+				if got != nil {
+					t.Fatalf("error together with a UTXO")
+				}
+			case expectErr:
+				t.Fatalf("query %d (%s) failed and the lookup returned %v for a registered hash (%s) that matches no wallet output; world %s", w.faultAt, w.faulted, got, class, w.render())
+			case expect == nil:
+				if got != nil {
+					t.Fatalf("query %d (%s) failed and the lookup returned %v although nothing is registered", w.faultAt, w.faulted, got)
+				}
+			default:
+				if !c34SameUtxo(got, *expect) {
+					t.Fatalf("query %d (%s) failed and the lookup returned %v, registered is %v; world %s", w.faultAt, w.faulted, got, *expect, w.render())
+				}
+			}
+		}
 		nt := expect != nil && len(confirmedWallet) >= 2
 		exp := "nil"
 		if expect != nil {
@@ -447,7 +525,7 @@ func TestVerif_C34_DetermineMainUtxo(t *testing.T) {
 			exp = "error"
 		}
 		st.Case(nt, fmt.Sprintf("%s| %s -> %s", w.render(), class, exp),
-			"registered:"+class, fmt.Sprintf("wallet-outputs:%d", min(len(confirmedWallet), 5)))
+			"registered:"+class, fmt.Sprintf("wallet-outputs:%d", min(len(confirmedWallet), 5)), faultLabel)
 	})
 }
 
@@ -504,9 +582,25 @@ func TestVerif_C34_SyncWithMainUtxo(t *testing.T) {
 		if class != "unspent" && err == nil {
 			t.Fatalf("main UTXO %v is %s but the sync check passed; world %s", r, class, w.render())
 		}
+		// the same flow with one failing chain query: the check may refuse,
+		// it must never pass for a spent main UTXO
+		faultLabel := "fault:none"
+		if c34ArmFault(t, w) {
+			main, err := DetermineWalletMainUtxo(w.pkh, bridge, btc)
+			if err == nil {
+				if !c34SameUtxo(main, r) {
+					t.Fatalf("query %d (%s) failed and the lookup returned %v instead of %v", w.faultAt, w.faulted, main, r)
+				}
+				err = EnsureWalletSyncedBetweenChains(w.pkh, main, bridge, btc)
+				if class != "unspent" && err == nil {
+					t.Fatalf("query %d (%s) failed and the sync check PASSED although main UTXO %v is %s; world %s", w.faultAt, w.faulted, r, class, w.render())
+				}
+			}
+			faultLabel = "fault:" + w.faulted
+		}
 		others := len(btc.utxos(w.pkh, false))
 		st.Case(class != "unspent" || others >= 2, fmt.Sprintf("%s| main=%v %s", w.render(), r, class),
-			"main:"+class, fmt.Sprintf("confirmed-utxos:%d", min(others, 4)))
+			"main:"+class, fmt.Sprintf("confirmed-utxos:%d", min(others, 4)), faultLabel)
 	})
 }
 
@@ -607,6 +701,23 @@ func TestVerif_C34_SyncFreshWallet(t *testing.T) {
 		if ownAt < 0 && err != nil {
 			t.Fatalf("no own transaction among the wallet's outputs but the sync check failed: %v; world %s", err, w.render())
 		}
+		// the same flow with one failing chain query (time-out, rate limit):
+		// the check may refuse, it must never pass while the wallet's own
+		// sweep is among its unspent outputs
+		faultLabel := "fault:none"
+		if c34ArmFault(t, w) {
+			main, err := DetermineWalletMainUtxo(w.pkh, bridge, btc)
+			if err == nil {
+				if main != nil {
+					t.Fatalf("query %d (%s) failed and the lookup returned %v although nothing is registered", w.faultAt, w.faulted, main)
+				}
+				err = EnsureWalletSyncedBetweenChains(w.pkh, nil, bridge, btc)
+				if ownAt >= 0 && err == nil {
+					t.Fatalf("query %d (%s) failed and the sync check PASSED although the wallet's first %s (mempool=%v) is among its unspent outputs; world %s", w.faultAt, w.faulted, ownKind, ownMempool, w.render())
+				}
+			}
+			faultLabel = "fault:" + w.faulted
+		}
 		utxos := len(btc.utxos(w.pkh, false)) + len(btc.utxos(w.pkh, true))
 		where := "none"
 		if ownAt >= 0 {
@@ -621,7 +732,7 @@ func TestVerif_C34_SyncFreshWallet(t *testing.T) {
 				sk = append(sk, "spam:"+k)
 			}
 		}
-		labels := append([]string{"own-sweep:" + ownKind, "own-sweep-in:" + where, fmt.Sprintf("utxos:%d", min(utxos, 4))}, sk...)
+		labels := append([]string{"own-sweep:" + ownKind, "own-sweep-in:" + where, fmt.Sprintf("utxos:%d", min(utxos, 4)), faultLabel}, sk...)
 		st.Case(utxos >= 1 && len(spamKinds) > 0, fmt.Sprintf("%s| own=%s/%s", w.render(), ownKind, where), labels...)
 	})
 }
